@@ -20,7 +20,7 @@ def specs(pid, tier):
             sp.append(("hrs", w, h, None, 16 + (w // 2) * h))
         sp.append(("hrs", 4, 1, 2, 20))
         sp.append(("hrs", 4, 2, 1, 21))
-        for n in (2, 8) + ((18,) if T else ()):
+        for n in (2, 8, 18, 50) + ((72,) if T else ()):  # sides 2, 4, 6, 10 (12): not only powers of two
             sp.append(("pix", n))
         for arte in range(9):
             sp.append(("max", arte, False, 8, 1, None, False, 6))
@@ -416,6 +416,16 @@ def obligations_pixels(out, spec, st, pid):
                 out["sigs"].append(("header:maxtoppm:geometry", f"{case.name}: announced size differs from what the options / header dictate for input {data.hex()[:40]} (real decoder: {str(got)[:60]})", {"case": str(spec), "input_hex": data.hex()}))
         if case.decoder in ("cm3toppm", "mgetoppm", "rattoppm") and p.get("header_ok") is False and pid != "C18":
             out["sigs"].append((f"header:{case.decoder}", f"{case.name}: the PPM header differs from the size the format dictates for this picture type", {"case": str(spec)}))
+        if case.decoder == "pixtopgm" and p.get("header_ok") is False and p["status"] == "ok":
+            # the side of a PIX picture follows from its length; with another header the samples below are not comparable
+            real, data = case.replay(smt.check(p["pc"] + case.premises, 20000, True)[1])
+            out["replays"] += 1
+            ann = re.match(rb"P5\n(\d+) (\d+)\n", real if isinstance(real, (bytes, bytearray)) else b"")
+            if ann and (int(ann.group(1)), int(ann.group(2))) == tuple(p["announced"]):
+                out["sigs"].append(("harness-replay", f"{case.name}: modelled header differs from the reference but the real decoder announces {p['announced']}", None))
+            else:
+                out["sigs"].append(("header:pixtopgm:side", f"{case.name}: {len(data)} bytes are a {p['announced'][0]}x{p['announced'][1]} picture; the decoder announces {ann.groups() if ann else real[:20]!r}", {"case": str(spec), "input_hex": data.hex()[:80]}))
+            continue
         got = p.get("samples", p.get("got"))
         for pc2, want in want_for(case, p, st):
             if want is None:
